@@ -566,7 +566,7 @@ def name_clash_case(rng) -> dict:
 
 
 # ---------------------------------------------------------------- entry
-GUARDS: dict[int, str] = {1: "F13e"}   # F13a, F13b, F13c and F01e are fixed
+GUARDS: dict[int, str] = {}   # F13a, F13b, F13c, F13e and F01e are fixed: any oracle failure is a violation
 
 
 def main(chk: Check, replay: dict | None = None) -> int:
